@@ -198,6 +198,10 @@ def spec_c19(cfg, res):
             i += 3
             if i == len(events) and outcome not in ("Aborted",):
                 return si, "loop-continues", "log ends after end_trial with outcome %s" % outcome
+        if outcome == "Done":
+            for ti, st in enumerate(snap["st"]):
+                if st not in ("COMPLETED", "FAILED"):
+                    return si, "left-unfinished", "the search loop was told STOPPED while trial %d is still %s (retry queue %r)" % (ti, st, snap["rq"])
         # resume clauses
         if kind == "resume" and prev_snap is not None:
             first_running = next((e for e in events if e[0] == "resp" and e[2] == "RUNNING"), None)
